@@ -237,6 +237,41 @@ Section Oracles.
   Qed.
 End Oracles.
 
+(* ---------- Mapping.Validate: every source and target subject validated, the weights of one source summed ----------
+   (in the integer type the code sums them in: a sum in a narrower type would be translated with its wrap-around) *)
+Definition wm_of (t : string * Z * string) : wmapping := {| wm_subject := fst (fst t); wm_weight := snd (fst t) |}.
+Definition mapping_of (m : list (string * list (string * Z * string))) : list (string * list wmapping) :=
+  map (fun e => (fst e, map wm_of (snd e))) m.
+
+Lemma vc_mappings (m : list (string * list (string * Z * string))) (vr : list go_issue) :
+  V2.Mapping_Validate m vr = vr ++ map goi (v_mappings (mapping_of m)).
+Proof.
+  unfold V2.Mapping_Validate, v_mappings.
+  assert (Hin : forall (l : list (string * Z * string)) (i : Z) (vr : list go_issue) (total : Z),
+    go_range (A:=(string * Z * string)) (S:=(list go_issue * Z)) (R:=list go_issue)
+      (fun (_ : Z) (wm_1 : string * Z * string) (go_st : list go_issue * Z) =>
+         let '(vr, total) := go_st in
+         let vr := V2.Subject_Validate (let '(go_f0, go_f1, go_f2) := wm_1 in go_f0) vr in
+         let total := (total + V2.WeightedMapping_GetWeight (let '(go_f0, go_f1, go_f2) := wm_1 in go_f1))%Z in
+         Cont (vr, total)) i l (vr, total)
+    = inl (vr ++ map goi (flat_map (fun w => v_subject (wm_subject w)) (map wm_of l)),
+           fold_left (fun acc w => (acc + eff_weight w)%Z) (map wm_of l) total)).
+  { induction l as [|[[s w] c] l IH]; intros i vr0 total; [cbn; now rewrite app_nil_r|].
+    cbn [go_range map flat_map fold_left]. cbv zeta. rewrite vc_subject, IH.
+    unfold wm_of at 1 3. cbn [fst snd wm_subject]. rewrite map_app, <- app_assoc.
+    unfold eff_weight, V2.WeightedMapping_GetWeight, wm_of. cbn [wm_weight fst snd]. reflexivity. }
+  match goal with |- context [go_range ?B 0%Z m vr] => set (body := B) end.
+  assert (Hout : forall (m : list (string * list (string * Z * string))) (i : Z) (vr : list go_issue),
+    go_range body i m vr = inl (vr ++ map goi (flat_map (fun e : string * list wmapping =>
+      (v_subject (fst e) ++ flat_map (fun w => v_subject (wm_subject w)) (snd e) ++
+       when (100 <? fold_left (fun acc w => (acc + eff_weight w)%Z) (snd e) 0%Z)%Z Blocking)%list) (mapping_of m)))).
+  { clear m vr. induction m as [|[from wms] m IH]; intros i vr; [cbn; now rewrite app_nil_r|].
+    cbn [go_range mapping_of map flat_map fst snd]. unfold body at 1. cbv beta zeta. rewrite vc_subject, Hin.
+    rewrite Z.gtb_ltb. fold (mapping_of m). rewrite !map_app, map_when.
+    destruct (100 <? fold_left (fun acc w => (acc + eff_weight w)%Z) (map wm_of wms) 0)%Z; rewrite IH; rewrite <- ?app_assoc; cbn [app]; rewrite ?app_nil_r; reflexivity. }
+  rewrite Hout. reflexivity.
+Qed.
+
 (* ---------- OperatorLimits.Validate: tiers and flat JetStream limits are mutually exclusive; no blank tier name ----------
    The limits are an abstract value: the code asks whether the flat limits equal the zero struct, how many tiers there
    are, and whether a tier is named "". *)
@@ -291,16 +326,91 @@ Proof.
   rewrite !vc_permission, map_app, <- app_assoc. reflexivity.
 Qed.
 
-(* ---------- User.Validate, UserClaims.Validate (what Limits.Validate reports is an observation) ---------- *)
-Lemma vc_user_claims role_of cidr_ok hhmmss_ok tz_ok now (cd : claims_data) (u : user) (resp_nil : bool) (vr : list go_issue) :
-  V2.UserClaims_Validate (is_acct role_of) now (cd_exp cd) (cd_nbf cd) (us_issuer_account u)
-    (map goi (v_user_limits cidr_ok hhmmss_ok tz_ok (us_limits u)))
-    (p_allow (perm_pub (us_perms u))) (p_deny (perm_pub (us_perms u))) resp_nil (p_allow (perm_sub (us_perms u))) (p_deny (perm_sub (us_perms u))) vr
-  = vr ++ map goi (v_user_claims now role_of cidr_ok hhmmss_ok tz_ok cd u).
-Proof.
-  unfold V2.UserClaims_Validate, V2.User_Validate, v_user_claims. cbv zeta.
-  rewrite vc_claims_data, vc_permissions, !map_app, map_when. factor_reports. reflexivity.
-Qed.
+(* ---------- Limits.Validate, User.Validate, UserClaims.Validate ----------
+   The time ranges of the list and the network net.ParseCIDR returns are opaque values: [gvl].  net.ParseCIDR and
+   time.LoadLocation are unknown functions of their text - here the model's judgements [cidr_ok] and [tz_ok]. *)
+Section UserLimits.
+  Variable role_of : string -> role.
+  Variables cidr_ok hhmmss_ok tz_ok : string -> bool.
+  Inductive gvl := LNil | LNet | LRange (t : time_range).
+  Definition o_parse_cidr (c : string) : string * gvl * option string :=
+    if cidr_ok c then ("", LNet, None) else ("", LNil, Some "invalid CIDR address").
+  Definition o_load_location (l : string) : option string := if tz_ok l then None else Some "unknown time zone".
+  Definition o_net_isnil (v : gvl) : bool := match v with LNet => false | _ => true end.
+  Definition o_tr {A} (f : time_range -> A) (d : A) (v : gvl) : A := match v with LRange t => f t | _ => d end.
+
+  Definition src_limits_validate (l : user_limits) (vr : list go_issue) : list go_issue :=
+    V2.Limits_Validate gvl LNil o_parse_cidr o_load_location (parse_err hhmmss_ok) (ul_locale l) (ul_src l) (map LRange (ul_times l))
+      (is_nil (ul_times l)) o_net_isnil (o_tr tr_end "") (o_tr tr_start "") vr.
+
+  Lemma vc_limits (l : user_limits) (vr : list go_issue) :
+    src_limits_validate l vr = vr ++ map goi (v_user_limits cidr_ok hhmmss_ok tz_ok l).
+  Proof.
+    unfold src_limits_validate, V2.Limits_Validate, v_user_limits. cbv zeta.
+    assert (Hsrc : forall (cs : list string) (i : Z) (vr : list go_issue),
+      go_range (A:=string) (S:=list go_issue) (R:=list go_issue)
+        (fun (_ : Z) (cidr : string) (go_st : list go_issue) =>
+           let vr := go_st in let '(_, ipNet, err_1) := o_parse_cidr cidr in
+           let vr := (if negb (go_err_isnil err_1) || o_net_isnil ipNet then vr ++ [GoError] else vr) in Cont vr) i cs vr
+      = inl (vr ++ map goi (flat_map (fun c => when (negb (cidr_ok c)) Blocking) cs))).
+    { induction cs as [|c cs IH]; intros i vr0; [cbn; now rewrite app_nil_r|].
+      cbn [go_range flat_map]. unfold o_parse_cidr at 1. destruct (cidr_ok c); cbn [go_err_isnil negb orb o_net_isnil when app map goi];
+        rewrite IH; rewrite <- ?app_assoc; reflexivity. }
+    assert (Htimes : forall (ts : list time_range) (i : Z) (vr : list go_issue),
+      go_range (A:=gvl) (S:=list go_issue) (R:=list go_issue)
+        (fun (_ : Z) (t : gvl) (go_st : list go_issue) =>
+           let vr := go_st in let vr := V2.TimeRange_Validate (parse_err hhmmss_ok) (o_tr tr_end "" t) (o_tr tr_start "" t) vr in Cont vr) i (map LRange ts) vr
+      = inl (vr ++ map goi (flat_map (v_time_range hhmmss_ok) ts))).
+    { induction ts as [|t ts IH]; intros i vr0; [cbn; now rewrite app_nil_r|].
+      cbn [go_range flat_map map o_tr]. rewrite vc_time_range, IH, map_app, <- app_assoc. reflexivity. }
+    assert (Hloc : forall vr : list go_issue,
+      (if negb (ul_locale l =? "")
+       then (if negb (go_err_isnil (o_load_location (ul_locale l))) then vr ++ [GoError] else vr) else vr)
+      = vr ++ map goi (when (negb (ul_locale l =? "") && negb (tz_ok (ul_locale l))) Blocking)).
+    { intros vr0. unfold o_load_location. destruct (ul_locale l =? ""); cbn [negb andb when map]; [now rewrite app_nil_r|].
+      destruct (tz_ok (ul_locale l)); cbn [go_err_isnil negb when map goi]; [now rewrite app_nil_r|reflexivity]. }
+    assert (Hk1 : forall vr : list go_issue,
+      (if negb (is_nil (ul_times l)) && (go_llen (map LRange (ul_times l)) >? 0)%Z
+       then match go_range (A:=gvl) (S:=list go_issue) (R:=list go_issue)
+              (fun (_ : Z) (t : gvl) (go_st : list go_issue) =>
+                 let vr := go_st in let vr := V2.TimeRange_Validate (parse_err hhmmss_ok) (o_tr tr_end "" t) (o_tr tr_start "" t) vr in Cont vr)
+              0%Z (map LRange (ul_times l)) vr
+            with inr go_r => go_r
+               | inl go_st => (if negb (ul_locale l =? "")
+                               then (if negb (go_err_isnil (o_load_location (ul_locale l))) then go_st ++ [GoError] else go_st) else go_st) end
+       else (if negb (ul_locale l =? "")
+             then (if negb (go_err_isnil (o_load_location (ul_locale l))) then vr ++ [GoError] else vr) else vr))
+      = vr ++ map goi (flat_map (v_time_range hhmmss_ok) (ul_times l) ++
+                       when (negb (ul_locale l =? "") && negb (tz_ok (ul_locale l))) Blocking)).
+    { intros vr0. destruct (ul_times l) as [|t ts] eqn:Et.
+      - cbn [is_nil negb andb flat_map app]. apply Hloc.
+      - replace (negb (is_nil (t :: ts)) && (go_llen (map LRange (t :: ts)) >? 0)%Z) with true
+          by (cbn [is_nil negb andb]; symmetry; apply Z.gtb_lt; unfold go_llen; cbn [map List.length]; lia).
+        rewrite Htimes, Hloc, map_app, <- app_assoc. reflexivity. }
+    destruct (ul_src l) as [|c cs] eqn:Es.
+    - cbn [go_llen List.length Z.of_nat Z.eqb negb flat_map app]. apply Hk1.
+    - replace (negb (go_llen (c :: cs) =? 0)%Z) with true
+        by (symmetry; apply negb_true_iff, Z.eqb_neq; unfold go_llen; cbn [List.length]; lia).
+      rewrite Hsrc. rewrite Hk1, !map_app, <- !app_assoc. reflexivity.
+  Qed.
+
+  Definition src_user_claims_validate now (cd : claims_data) (u : user) (resp_nil : bool) (vr : list go_issue) : list go_issue :=
+    V2.UserClaims_Validate gvl LNil o_parse_cidr (is_acct role_of) now o_load_location (parse_err hhmmss_ok) o_net_isnil (o_tr tr_end "") (o_tr tr_start "")
+      (cd_exp cd) (cd_nbf cd) (us_issuer_account u) (ul_locale (us_limits u)) (ul_src (us_limits u)) (map LRange (ul_times (us_limits u)))
+      (is_nil (ul_times (us_limits u)))
+      (p_allow (perm_pub (us_perms u))) (p_deny (perm_pub (us_perms u))) resp_nil (p_allow (perm_sub (us_perms u))) (p_deny (perm_sub (us_perms u))) vr.
+
+  Lemma vc_user_claims now (cd : claims_data) (u : user) (resp_nil : bool) (vr : list go_issue) :
+    src_user_claims_validate now cd u resp_nil vr = vr ++ map goi (v_user_claims now role_of cidr_ok hhmmss_ok tz_ok cd u).
+  Proof.
+    unfold src_user_claims_validate, V2.UserClaims_Validate, V2.User_Validate, v_user_claims. cbv zeta.
+    rewrite vc_claims_data, vc_permissions.
+    change (V2.Limits_Validate gvl LNil o_parse_cidr o_load_location (parse_err hhmmss_ok) (ul_locale (us_limits u)) (ul_src (us_limits u))
+              (map LRange (ul_times (us_limits u))) (is_nil (ul_times (us_limits u))) o_net_isnil (o_tr tr_end "") (o_tr tr_start ""))
+      with (src_limits_validate (us_limits u)).
+    rewrite vc_limits, !map_app, map_when. factor_reports. reflexivity.
+  Qed.
+End UserLimits.
 
 (* ---------- ExternalAuthorization.Validate ---------- *)
 Section ExtAuth.
